@@ -544,13 +544,12 @@ func runShard(spec *Spec, tier string, sh *Shard, only string) *Part {
 			if !shardDeadline.IsZero() {
 				if left := time.Until(shardDeadline); left > 0 {
 					share := left / time.Duration(len(mine)-i)
-					// never less than the quick tier would have given it
-					floor := spec.QuickBudget
+					// but never less than 10 s (a worker with thousands of tiny scenarios would
+					// otherwise cut the few larger ones after a fraction of a second), and never
+					// less than a budget the scenario asks for explicitly
+					floor := 10 * time.Second
 					if sc.Budget > floor {
 						floor = sc.Budget
-					}
-					if floor == 0 {
-						floor = time.Minute
 					}
 					if share < floor {
 						share = floor
